@@ -191,13 +191,17 @@ pub const K_SUBTRACT: u8 = 18;
 pub const K_SQUARE: u8 = 19;
 pub const K_SWAP: u8 = 20;
 pub const K_DIVCAND: u8 = 21; // candidate infinite loop (G-div)
-pub const K_COUNTED: u8 = 22; // with body
-pub const K_IFLIKE: u8 = 23; // with body
-pub const K_WHILE: u8 = 24; // with body
-pub const N_LEAF_KINDS: u8 = 22;
+pub const K_IOCHAIN: u8 = 22; // loop whose body updates and prints several cells around an input
+pub const K_CONSTLOOP: u8 = 23; // loop with a compile-time constant trip count (up to ~60)
+pub const K_COUNTED: u8 = 24; // with body
+pub const K_IFLIKE: u8 = 25; // with body
+pub const K_WHILE: u8 = 26; // with body
+pub const N_LEAF_KINDS: u8 = 24;
 
 pub const DIV_CANDIDATES: &[&str] = &[
     "+[]", "+[.]", "+[>+<]", "[]", "+[-+]", "+[[-]+]", ",[.]", "+[>]", "-[+>+<-]", ",[]", ",[>+<]", "+[>.<]", ",[[.]]", "+[>,<]", "+[>[-]<]", "[.]", "-[.+]", "+[[>]<]",
+    // even steps never reach zero from an odd start; bodies with a hoistable write
+    ",[-->[-]+<]", "+[-->[-]++<]", ",[++>[-]<]", "+++[-->+<]", ",[---->.<]", "+[++>[-]+<]", ",[>[-]+<--]", ",[>[]<-]", ",[[-]+]", "+[>[-]<[-]+]",
 ];
 
 /// Choose 4 distinct cells in 0..n from 4 selector bytes (n >= 4); constructed,
@@ -465,6 +469,39 @@ fn render_idiom(i: &Idiom, n: i64, w: &mut W) {
             w.mov(b, a);
             w.mov(c, b);
         }
+        K_IOCHAIN => {
+            // a[ (c_i -= 1; print c_i) x cnt ; input d ; (c_i -= 1) x cnt ; a-- ]: keeps values in
+            // temporaries across the runtime calls for output and input
+            let cnt = (2 + k % 6).min(n as u64 - 2) as i64;
+            let cells: Vec<i64> = (0..n).map(|x| x + home).filter(|x| *x != a && *x != b).take(cnt as usize).collect();
+            w.go(a);
+            w.e("[");
+            for &c in &cells {
+                w.go(c);
+                w.e(if i.flag { "-." } else { "+." });
+            }
+            w.go(b);
+            w.e(if m % 3 == 0 { "." } else { "," });
+            for &c in &cells {
+                w.go(c);
+                w.e("-");
+            }
+            w.go(a);
+            w.e("-]");
+        }
+        K_CONSTLOOP => {
+            // a = constant trip count; each pass: b += step (odd or even), c += b
+            w.clear(a);
+            w.go(a);
+            w.rep('+', 9 + (k * 5 + m) % 56);
+            w.e("[-");
+            w.go(b);
+            w.rep(if i.flag { '-' } else { '+' }, 1 + m % 4);
+            w.clear(d);
+            w.copy(b, c, d);
+            w.go(a);
+            w.e("]");
+        }
         K_DIVCAND => {
             w.go(a);
             let cand = DIV_CANDIDATES[(k as usize * 4 + m as usize) % DIV_CANDIDATES.len()];
@@ -515,7 +552,7 @@ impl StructProg {
         let n = self.n as i64;
         let mut w = W::new();
         for (i, &(kind, k)) in self.init.iter().enumerate().take(n as usize) {
-            match kind % 3 {
+            match kind % 4 {
                 1 => {
                     w.go(i as i64);
                     w.e(",")
@@ -523,6 +560,11 @@ impl StructProg {
                 2 => {
                     w.go(i as i64);
                     w.rep('+', k as u64 % 7)
+                }
+                3 => {
+                    // a larger compile-time constant (trip counts beyond the small ones)
+                    w.go(i as i64);
+                    w.rep('+', k as u64)
                 }
                 _ => {}
             }
@@ -544,7 +586,7 @@ impl StructProg {
 fn kind_table(div: bool) -> Vec<u8> {
     let mut t = vec![
         K_ADD, K_ADD, K_OUT, K_IN, K_CLEAR, K_MOVEADD, K_MOVEADD, K_MOVEADD, K_STEPLOOP, K_COPY, K_COPY, K_DOUBLING, K_MUL, K_GEOMETRIC, K_GEOMETRIC, K_TRIANGULAR, K_TRIANGULAR,
-        K_OUTLOOP, K_INLOOP, K_SCAN, K_NONUNIT, K_REFILL, K_IFELSE, K_COUNTUP, K_SUBTRACT, K_SQUARE, K_SWAP,
+        K_OUTLOOP, K_INLOOP, K_SCAN, K_NONUNIT, K_REFILL, K_IFELSE, K_COUNTUP, K_SUBTRACT, K_SQUARE, K_SWAP, K_IOCHAIN, K_IOCHAIN, K_CONSTLOOP,
     ];
     if div {
         for _ in 0..6 {
@@ -573,7 +615,7 @@ pub fn node_strategy(div: bool, depth: u32) -> BoxedStrategy<Node> {
 }
 
 pub fn struct_prog(div: bool) -> impl Strategy<Value = StructProg> {
-    (4u8..11, vec((0u8..3, 0u8..7), 10), vec(node_strategy(div, 3), 1..12), prop_oneof![9 => Just(true), 1 => Just(false)]).prop_map(|(n, init, body, print_all)| StructProg { n, init, body, print_all })
+    (4u8..11, vec((prop_oneof![6 => 0u8..3, 1 => Just(3u8)], 0u8..40), 10), vec(node_strategy(div, 3), 1..12), prop_oneof![9 => Just(true), 1 => Just(false)]).prop_map(|(n, init, body, print_all)| StructProg { n, init, body, print_all })
 }
 
 // ---------------------------------------------------------------- G-wide
@@ -921,6 +963,8 @@ pub enum ProgAst {
     Roam(RoamProg),
     Deep(DeepProg),
     Text(String),
+    /// any program with non-command characters spliced in at character positions
+    Commented(Box<ProgAst>, Vec<(u16, char)>),
 }
 
 impl ProgAst {
@@ -932,6 +976,14 @@ impl ProgAst {
             ProgAst::Roam(p) => p.render(),
             ProgAst::Deep(p) => p.render(),
             ProgAst::Text(s) => s.clone(),
+            ProgAst::Commented(p, ins) => {
+                let mut chars: Vec<char> = p.render().chars().collect();
+                for (pos, ch) in ins {
+                    let at = (*pos as usize * (chars.len() + 1)) >> 16;
+                    chars.insert(at, *ch);
+                }
+                chars.into_iter().collect()
+            }
         }
     }
     pub fn family(&self) -> &'static str {
@@ -948,6 +1000,7 @@ impl ProgAst {
             ProgAst::Roam(_) => "roam",
             ProgAst::Deep(_) => "deep",
             ProgAst::Text(_) => "text",
+            ProgAst::Commented(..) => "commented",
         }
     }
 }
@@ -961,6 +1014,8 @@ pub struct Mix {
     pub big: u32,
     pub roam: u32,
     pub deep: u32,
+    /// raw/structured programs with comment characters spliced in (incl. characters that truncate to commands)
+    pub commented: u32,
 }
 
 pub fn prog(mix: Mix) -> BoxedStrategy<ProgAst> {
@@ -986,7 +1041,31 @@ pub fn prog(mix: Mix) -> BoxedStrategy<ProgAst> {
     if mix.deep > 0 {
         v.push((mix.deep, deep_prog(400).prop_map(ProgAst::Deep).boxed()))
     }
+    if mix.commented > 0 {
+        let inner = prop_oneof![raw_tokens(4, 60).prop_map(ProgAst::Raw), struct_prog(false).prop_map(ProgAst::Struct)];
+        v.push((mix.commented, (inner, vec((any::<u16>(), comment_char()), 1..10)).prop_map(|(p, ins)| ProgAst::Commented(Box::new(p), ins)).boxed()))
+    }
     proptest::strategy::Union::new_weighted(v).boxed()
+}
+
+/// Non-command characters, including those a byte- or truncation-based scanner would confuse
+/// with commands: same low byte (U+012B for '+'), same low 7 bits (U+00AB), command byte in
+/// the second byte (U+2B00), fullwidth forms (U+FF0B), other planes, plus arbitrary scalar values.
+pub fn comment_char() -> BoxedStrategy<char> {
+    const PLAIN: &[char] = &[' ', 'a', '\n', '#', '0', '\t', 'é', 'ß', '☃', '→', '𝄞', '🙂', '\u{0}', '\u{feff}', '\u{200b}'];
+    let confusable = (0usize..8, 0u32..6, 1u32..0x10ff).prop_map(|(c, how, k)| {
+        let b = "+-<>.,[]".as_bytes()[c] as u32;
+        let cp = match how {
+            0 => b + 0x100 * k,
+            1 => b | 0x80,
+            2 => (b << 8) | (k & 0xff),
+            3 => 0xff00 + (b - 0x20),
+            4 => b + 0x10000 * (1 + k % 16),
+            _ => (b << 16 | k) & 0x10ffff,
+        };
+        char::from_u32(cp).filter(|ch| !"+-<>.,[]".contains(*ch)).unwrap_or('\u{12b}')
+    });
+    prop_oneof![6 => (0..PLAIN.len()).prop_map(|i| PLAIN[i]), 3 => confusable, 1 => any::<char>().prop_filter("command", |ch| !"+-<>.,[]".contains(*ch))].boxed()
 }
 
 /// Input streams: length 0..24, bytes biased to small/edge values; the empty
